@@ -19,6 +19,7 @@ TStep ==
          r == CASE e.op = "new"    -> [h |-> HNew(e.limit, e.unit), res |-> TRUE, ev |-> <<>>]
                 [] e.op = "put"    -> HPut(h, e.k, e.v)
                 [] e.op = "get"    -> HGet(h, e.k)
+                [] e.op \in {"getn", "fill"} -> [h |-> h, res |-> FALSE, ev |-> <<"not modelled">>]
                 [] e.op = "has"    -> HHas(h, e.k)
                 [] e.op = "remove" -> HRemove(h, e.k)
                 [] e.op = "clear"  -> HClear(h)
